@@ -32,7 +32,22 @@ theorem a2c_uses_critic_baseline : Params.trainA2cCriticBaseline = true := rfl
 theorem symncoRegroupC_eq {α : Type} (S A n : Nat) (x : Nat → α) : symncoRegroupC S A n x = symncoRegroup S A n x := rfl
 
 theorem symncoLossC_eq (S A n : Nat) (al be : K) (R ll : Nat → Dual K) (inv : Dual K) :
-    symncoLossC S A n al be R ll inv = symncoLoss S A n al be R ll inv := rfl
+    symncoLossC S A n al be R ll inv = symncoLoss S A n al be R ll inv := by
+  simp only [symncoLossC, symncoLoss, symncoRegroupC_eq, symTermC, Params.trainSymGuardPs, Params.trainSymGuardSs,
+    Params.trainSymPsBodyTag, Params.trainSymSsBodyTag, Params.trainSymPsDim, Params.trainSymSsDimLast,
+    Params.trainSymTotalTag, Cmp.evalNat, decide_eq_true_eq, gt_iff_lt, Bool.not_true, decide_true, if_true,
+    Bool.false_eq_true, if_false]
+
+/-- `A2C.configure_optimizers` as coded: group 0 is the policy with the actor's learning rate, group 1 the critic
+baseline with its own learning rate, which defaults to the actor's when no critic options are given — every parameter
+is optimised with exactly the learning rate configured for its network. -/
+theorem A2C.groupsC_eq (actorLr : K) (criticLr : Option K) :
+    A2C.groupsC actorLr criticLr = [(true, actorLr), (false, criticLr.getD actorLr)] := by
+  cases criticLr <;> rfl
+
+/-- `invariance_loss` as coded compares rows `b·A` and `b·A + i` of the projected embeddings -/
+theorem invRowsC_eq (A B b i : Nat) : invRowsC A B b i = (b * A, b * A + i) := by
+  simp [invRowsC, Params.trainSymInvBatchOuter]
 
 section ord
 variable [LinearOrder K]
